@@ -203,7 +203,7 @@ extern "C" __attribute__((no_sanitize("thread"))) void __tsan_on_report(void *) 
 // recover mode, which would make every later case (and therefore shrinking) blind to a defect
 // that was already reported once. They therefore halt: the process dies with the report, the
 // journal holds the case, and the driver minimises it by re-running --replay (DESIGN.md 1.2).
-extern "C" const char *__asan_default_options() { return "halt_on_error=1:detect_leaks=0:allocator_may_return_null=1:detect_stack_use_after_return=0:exitcode=5"; }
+extern "C" const char *__asan_default_options() { return "halt_on_error=1:detect_leaks=0:allocator_may_return_null=1:detect_stack_use_after_return=0:exitcode=5:check_printf=0"; }   // check_printf: the reference vsnprintf is handed precision-bounded, unterminated %s arguments (valid ISO C), which the interceptor would flag
 extern "C" const char *__ubsan_default_options() { return "print_stacktrace=0:halt_on_error=1:exitcode=5"; }
 extern "C" void __sanitizer_set_death_callback(void (*)(void)) __attribute__((weak));
 extern "C" const char *__tsan_default_options() { return "suppress_equal_stacks=0:suppress_equal_addresses=0:halt_on_error=0:exitcode=0:report_signal_unsafe=0"; }
